@@ -221,12 +221,29 @@ def check_case(ctx: Ctx, c: dict):
         # the terminal object's layer count changes between commands (assignment, detect_tmux(), clone_with):
         # every command must be wrapped with the count configured at the moment it is sent
         from tupimage import graphics_terminal as gt
+        # optional features of the terminal object that share the send path (the same on both terminals; only the layer
+        # count differs): shell-script logging, forced placeholders, forced direct transmission
+        feat = c.get("feat") or {}
+        for fk in feat:
+            if fk not in ("shellscript", "fp", "fd"):
+                raise ValueError(fk)
+            ctx.count("reconf:feature:%s=%s" % (fk, feat[fk]))
+
+        def _term(o, n):
+            kw = {}
+            if feat.get("shellscript"):
+                kw["shellscript_out"] = io.StringIO()
+            if "fp" in feat:
+                kw["force_placeholders"] = feat["fp"]
+            if "fd" in feat:
+                kw["force_direct_transmission"] = feat["fd"]
+            return gt.GraphicsTerminal(out_command=o, out_display=io.BytesIO(), in_response=io.BytesIO(), in_userinput=io.BytesIO(),
+                                       num_tmux_layers=n, max_command_size=c.get("max"), **kw)
+
         out = Rec()
-        t = gt.GraphicsTerminal(out_command=out, out_display=io.BytesIO(), in_response=io.BytesIO(), in_userinput=io.BytesIO(),
-                                num_tmux_layers=c["initial"], max_command_size=c.get("max"))
+        t = _term(out, c["initial"])
         ref_out = Rec()
-        ref = gt.GraphicsTerminal(out_command=ref_out, out_display=io.BytesIO(), in_response=io.BytesIO(), in_userinput=io.BytesIO(),
-                                  num_tmux_layers=0, max_command_size=c.get("max"))
+        ref = _term(ref_out, 0)
         cur = t
         # the layer count the CALLER configured (never read back from the object): constructor argument, assigned value,
         # clone_with argument (0 is a count; None keeps the parent's), detection = max(1, configured) exactly when the rule of
@@ -246,6 +263,7 @@ def check_case(ctx: Ctx, c: dict):
                 hist.append(f"detect:{_optb(step['tmux'])}:{_optb(step['term'])}")
             elif how == "clone":
                 cur = cur.clone_with(num_tmux_layers=step["n"], **(step.get("args") or {}))
+                ref = ref.clone_with(**(step.get("args") or {}))          # the 0-layer terminal follows everything but the count
                 if step["n"] is not None:
                     intended = step["n"]
                 hist.append("clone:" + ("_" if step["n"] is None else str(step["n"])))
@@ -255,15 +273,22 @@ def check_case(ctx: Ctx, c: dict):
             ctx.eq("num_tmux_layers of the object after " + how, dict(c, at=step), str(cur.num_tmux_layers),
                    d.ask("termcfg " + " ".join(hist)).split(" ")[0])
             n = intended
-            desc = step["cmd"]
-            data = data_bytes(desc.get("data"))
+            desc = _materialise(step["cmd"])
+            call = step.get("call") or {}                  # per-call force_placeholders / force_direct_transmission
+            for ck in call:
+                ctx.count("reconf:call-arg:%s=%s" % (ck, call[ck]))
             pos, rpos = len(out.getvalue()), len(ref_out.getvalue())
             growth = len(real_template(n)) - len(real_template(0))
             if c.get("max") is not None:
                 cur.max_command_size = c["max"] + growth
+            if (call.get("force_placeholders", cur.force_placeholders) or call.get("force_placeholders", ref.force_placeholders)) \
+                    and not _no_placeholder_needed(desc):
+                raise ValueError("case asks for a placeholder to be printed (needs a tty): not part of this family")
             try:
-                cur.send_command(build(desc))
-                ref.send_command(build(desc))
+                cur.send_command(build(desc), **call)
+                ref.send_command(build(desc), **call)
+            except io.UnsupportedOperation:
+                raise
             except ValueError:
                 ctx.count("reconf:too-small")
                 continue
@@ -319,6 +344,29 @@ def check_case(ctx: Ctx, c: dict):
         _real_tmux(ctx, d, c)
     else:
         raise ValueError(k)
+
+
+def _materialise(desc):
+    """a command whose payload is the NAME of a real file: {"data": {"tmpfile": <payload description>}} -> the file is
+    created (contents as described) and its name becomes the payload"""
+    dd = desc.get("data")
+    if not isinstance(dd, dict) or "tmpfile" not in dd:
+        return desc
+    from .c05 import _tmpdir
+    fd, path = tempfile.mkstemp(dir=_tmpdir(), suffix=".bin")
+    os.write(fd, data_bytes(dd["tmpfile"]))
+    os.close(fd)
+    return dict(desc, data={"text": path})
+
+
+def _no_placeholder_needed(desc) -> bool:
+    """force_placeholders leaves the command as it is (nothing is printed, no tty is needed): no classic placement in it"""
+    f = desc.get("f") or {}
+    if desc["type"] == "T":
+        return f.get("placement") is None or bool(f["placement"].get("virtual"))
+    if desc["type"] == "P":
+        return bool(f.get("virtual"))
+    return True
 
 
 def _check_pair(ctx, d, c, n, en: bytes, e0: bytes, where) -> bool:
@@ -464,7 +512,11 @@ def cases(ctx: Ctx):
             if how == "detect":
                 st["tmux"], st["term"] = rng.choice([(None, "xterm"), ("/tmp/tmux-0/default,1,0", "tmux-256color"), ("/t,1,0", "screen"), ("", "tmux")])
             steps.append(st)
-        yield {"k": "reconf", "initial": rng.randrange(0, 4), "max": rng.choice([None, None, 150, 400]), "steps": steps}
+        cse = {"k": "reconf", "initial": rng.randrange(0, 4), "max": rng.choice([None, None, 150, 400]), "steps": steps}
+        ft = rng.choice([None, None, {"shellscript": True}, {"fd": True}, {"shellscript": True, "fd": True}])
+        if ft:
+            cse["feat"] = ft
+        yield cse
     # every way of (re)configuring the count x every start count x every target count incl. 0: one command before, two after
     def _cmd():
         t = rng.choice(["T", "T", "P", "D"])
@@ -478,6 +530,53 @@ def cases(ctx: Ctx):
             yield {"k": "reconf", "initial": a, "max": rng.choice([None, 150, 400]),
                    "steps": [dict({"how": "same"}, cmd=_cmd()), dict(ch, cmd=_cmd()),
                              dict({"how": "clone", "n": None, "args": rng.choice([{}] + CLONE_ARGS)}, cmd=_cmd())]}
+    # the same with the optional features of the terminal object that share the send path switched on (alone and together),
+    # at construction / through clone_with / per call: shell-script logging, forced placeholders (commands that need no
+    # placeholder printed: no placement, virtual placements, deletions), forced direct transmission of a real file
+    def _fcmd(fp):
+        t = rng.choice(["T", "T", "T", "P", "D"])
+        if t == "T":
+            f = {"image_id": rng.randrange(1, 99)}
+            r = rng.random()
+            if r < 0.4:
+                f["medium"] = rng.choice(["FILE", "TEMP_FILE"])
+                data = {"tmpfile": {"len": rng.choice([0, 1, 50, 300, 1000]), "pat": rng.choice(["rand", "esc"]), "seed": rng.randrange(99)}}
+            else:
+                if r < 0.6:
+                    f["medium"] = "DIRECT"
+                data = {"len": rng.randrange(0, 300), "pat": rng.choice(["rand", "esc"]), "seed": rng.randrange(99)}
+            if rng.random() < 0.5:
+                f["placement"] = {"virtual": True, "rows": rng.randrange(1, 5), "cols": rng.randrange(1, 9)}
+                if rng.random() < 0.5:
+                    f["placement"]["placement_id"] = rng.randrange(1, 2**24)
+            elif not fp and rng.random() < 0.3:
+                f["placement"] = {"rows": 2, "cols": 3}
+            return {"type": "T", "f": f, "data": data}
+        if t == "P":
+            f = {"image_id": rng.randrange(1, 99), "rows": 1, "cols": 2, "placement_id": rng.randrange(1, 99)}
+            if fp or rng.random() < 0.5:
+                f["virtual"] = True
+            return {"type": "P", "f": f}
+        return {"type": "D", "f": {"image_id": rng.randrange(1, 99), "what": rng.choice(c06.enum_names("what"))}}
+
+    feats = [{"shellscript": True}, {"fp": True}, {"fd": True}, {"fd": False, "fp": False}, {"shellscript": True, "fd": True},
+             {"shellscript": True, "fp": True}, {"shellscript": True, "fp": True, "fd": True}]
+    for feat in feats:
+        fp = bool(feat.get("fp"))
+        for a in range(0, 4):
+            changes = [{"how": "same"}, {"how": "assign", "n": (a + 1) % 4}, {"how": "clone", "n": rng.choice([None, 0, 2, 3])},
+                       {"how": "clone", "n": None, "args": {"force_direct_transmission": not feat.get("fd", False)}},
+                       {"how": "detect", "tmux": "/t,1,0", "term": "screen"}]
+            for ch in changes:
+                for mx in ([None, 400] if quick else [None, 150, 400]):
+                    st2 = dict(ch, cmd=_fcmd(fp))
+                    r = rng.random()
+                    if r < 0.25:
+                        st2["call"] = {"force_direct_transmission": rng.random() < 0.5}
+                    elif r < 0.6 and _no_placeholder_needed(st2["cmd"]):
+                        st2["call"] = {"force_placeholders": rng.random() < 0.5}
+                    yield {"k": "reconf", "initial": a, "max": mx, "feat": feat,
+                           "steps": [dict({"how": "same"}, cmd=_fcmd(fp)), st2, dict({"how": "same"}, cmd=_fcmd(fp))]}
     for tm in tmuxes:
         for te in terms:
             for cur, cfg in ([(0, "auto"), (3, 2)] if not quick else [((0, "auto") if i % 3 else (2, 0))]):
@@ -499,7 +598,9 @@ def run(ctx: Ctx):
                 "TMUX in {unset, empty, value} x 20 TERM values x configured layers through GraphicsTerminal.detect_tmux and a "
                 "pty-hosted TupimageTerminal; send_command sequences with the layer count reconfigured in between (assignment, "
                 "detect_tmux, clone_with incl. 0 and None) from every start count to every target count, each emission judged against "
-                "the count the caller configured. distinct = canonical JSON; non-trivial = n >= 1 layers (wrap), >= 2 chunks and n >= 1 "
+                "the count the caller configured; the same sequences with the optional features sharing the send path on (shell-script "
+                "logging to a StringIO, force_placeholders with commands that need no placeholder printed, force_direct_transmission of "
+                "real files; at construction, through clone_with, per call). distinct = canonical JSON; non-trivial = n >= 1 layers (wrap), >= 2 chunks and n >= 1 "
                 "(wrapsend), every environment row")
     c06.run_corpus(ctx, "C11", check_case)
     for c in cases(ctx):
